@@ -31,6 +31,9 @@ QUICK = {
     # update map and through one that had been merged (the rebuild of the main map must prefer the update map) are both replayed
     "F-merge": consts(SrcSeq="<- Src1", MaxVer=2, MaxCalls=3, MaxEnv=2, MaxTicks=0, WithWaiter=False, PREGHOST=True),
     "D-reappear": consts(SrcSeq="<- Src1", ProvSeq="<- Prov1", MaxVer=1, MaxCalls=5, MaxEnv=3, MaxTicks=1, WithWaiter=False, PREGHOST=True),
+    # a provider whose newer record is still in the update map (the older one in the main map) disappears and expires: the removal
+    # must leave a tombstone over the main map's record (four refreshes, two versions, one expiry)
+    "G-stale": consts(SrcSeq="<- Src1", ProvSeq="<- Prov1", MaxVer=2, MaxCalls=4, MaxEnv=2, MaxTicks=1, WithWaiter=False, PREGHOST=True),
 }
 THOROUGH = {
     "T1-2x2": consts(MaxCalls=4, MaxEnv=1, MaxTicks=1),
